@@ -1,5 +1,5 @@
 import DirectVerif.Driver.Common
-import DirectVerif.Model.C04Poisson
+import DirectVerif.Model.C04PoissonGen
 /-!
 Line-protocol operations of `Model/C04Poisson.lean` (dispatched from `Driver/C04.lean`).
 
@@ -7,7 +7,7 @@ Floating-point values travel as pairs `mantissa exponent` (the dyadic rational `
 in canonical form (odd mantissa).
 -/
 namespace DirectVerif.Driver.C04Poisson
-open DirectVerif DirectVerif.Driver DirectVerif.C04Poisson
+open DirectVerif DirectVerif.Driver DirectVerif.C04Poisson DirectVerif.MaskGeom
 
 def pack (row : List Bool) : Int :=
   Int.ofNat (row.foldr (fun b acc => 2 * acc + (if b then 1 else 0)) 0)
@@ -33,14 +33,65 @@ def opKernel (par : List Int) (draws rx ry trig : List Int) : String :=
     let env : Env := { nx := nx.toNat, ny := ny.toNat, maxAttempts := ma.toNat, rx := (dys rx).toArray,
                        ry := (dys ry).toArray, draws := (nats draws).toArray, trig := (triples trig).toArray }
     match kernel env fuel.toNat with
-    | .error h => "err " ++ h.name
-    | .ok st =>
+    | ⟨some h, _⟩ => "err " ++ h.name
+    | ⟨none, st⟩ =>
       okG [(chunksOf env.ny st.mask.toList).map pack,
            [st.pos, st.att, st.iters, st.accepts, st.removals, st.stale, st.maxna].map Int.ofNat]
   | _ => "err BadOp"
 
+def envOf (par draws rx ry trig : List Int) : Option (Env × Nat) :=
+  match par with
+  | [nx, ny, ma, fuel] =>
+    some ({ nx := nx.toNat, ny := ny.toNat, maxAttempts := ma.toNat, rx := (dys rx).toArray, ry := (dys ry).toArray,
+            draws := (nats draws).toArray, trig := (triples trig).toArray }, fuel.toNat)
+  | _ => none
+
+/-- frames `par | draws | rx | ry | trig` … -/
+def frameMasks : List (List Int) → Except String (List (List Bool))
+  | par :: draws :: rx :: ry :: trig :: rest =>
+    match envOf par draws rx ry trig with
+    | none => .error "err BadOp"
+    | some (env, fuel) =>
+      match kernelMask env fuel with
+      | .error h => .error ("err " ++ h.name)
+      | .ok k =>
+        match frameMasks rest with
+        | .error e => .error e
+        | .ok ks => .ok (k :: ks)
+  | [] => .ok []
+  | _ => .error "err BadOp"
+
+def modeOf : Int → Option Mode
+  | 0 => some .static | 1 => some .dynamic | 2 => some .multislice | _ => none
+
+def unpack (cols : Nat) (v : Int) : List Bool := (List.range cols).map fun j => v.toNat.testBit j
+
+/-- `VariableDensityPoisson` mask branch: `gen_poisson mode | shape | radius hasCrop | crop rows | frames…` -/
+def opGenPoisson (hdr shape par cropRows : List Int) (frames : List (List Int)) : String :=
+  match hdr, par with
+  | [mi], [radius, hasCrop] =>
+    match modeOf mi with
+    | none => "err BadOp"
+    | some m =>
+      let shp := nats shape
+      if shp.length < neededRank m then
+        match assemblePoisson m shp radius none [] with
+        | .ok _ => "err BadOp"
+        | .error e => "err " ++ e.name
+      else
+      let cols := colsOf shp
+      let crop := if hasCrop != 0 then some ((cropRows.map (unpack cols)).flatten) else none
+      match frameMasks frames with
+      | .error e => e
+      | .ok ks =>
+        match assemblePoisson m shp radius crop ks with
+        | .ok t => okG [t.shape.map Int.ofNat, (chunksOf cols t.data).map pack]
+        | .error e => "err " ++ e.name
+  | _, _ => "err BadOp"
+
 def step (op : String) (gs : List (List Int)) : String :=
   match op, gs with
+  | "gen_poisson", hdr :: shape :: par :: cropRows :: frames => opGenPoisson hdr shape par cropRows frames
   | "poisson_kernel", [par, draws, rx, ry, trig] => opKernel par draws rx ry trig
   | "poisson_kernel", [par, draws, rx, ry] => opKernel par draws rx ry []
   -- one IEEE operation: 0 round, 1 add, 2 sub, 3 mul, 4 div; format 32 / 64
